@@ -666,6 +666,7 @@ class Rewriter:
         b = self.sub('R22:model-type', r'(?<![\w:])Vec::with_capacity_in\(', 'VecM::with_capacity_in(', b)
         b = self.sub('R22:model-type', r'(?<![\w:])RawVec::with_capacity_in\(', 'RawVecM::with_capacity_in(', b)
         b = self.sub('R22:model-type', r'(?<![\w:])Vec \{', 'VecM {', b)
+        b = self.sub('R22:model-type', r'(?<![\w:])Splice \{', 'SpliceM {', b)
         b = self.sub('R1:phantom', r'\b\w+\s*:\s*PhantomData\s*,?', '', b)
         # `self.for_each(drop)` is by definition: call next() until None, dropping every item
         extra = ', Ghost(*source_vec)' if c.get('drain_drop') else (', pl, vec' if c.get('dfilter') else '')
@@ -721,7 +722,7 @@ class Rewriter:
         thread = lambda extra: (lambda m_, a: None if (a and a[0] == 'hs') else '%s(%s)' % (m_.group(0).rstrip('(').rstrip(), ', '.join(extra + a)))
         for name in ['reserve', 'cap', 'capacity', 'append_elements', 'extend_from_slice_copy_unchecked', 'extend_from_slice_copy', 'extend_from_slice',
                      'set_len', 'push', 'extend', 'insert', 'remove', 'swap_remove', 'split_off', 'pop', 'append',
-                     'reserve_exact', 'try_reserve', 'try_reserve_exact', 'shrink_to_fit', 'extend_with', 'resize']:
+                     'reserve_exact', 'try_reserve', 'try_reserve_exact', 'shrink_to_fit', 'extend_with', 'resize', 'drain']:
             b = self.map_calls(b, r'(?<![\w:])[a-z_][\w.]*\.%s' % name, thread(['hs']), 'R12:thread-heap')
         for name in ['VecM::with_capacity_in', 'RawVecM::with_capacity_in']:
             b = self.map_calls(b, r'\b%s' % name, thread(['hs']), 'R12:thread-heap')
@@ -746,6 +747,9 @@ class Rewriter:
         b = self.sub('R25:char-at', r'\bself\[(\w+)\.\.\]\.chars\(\)\.next\(\)', r'self.char_at(hs, \1)', b)
         b = self.sub('R25:char-at-unchecked', r'(?:unsafe\s*)?\{?\s*self\.get_unchecked\((\w[\w.]*)\.\.(\w+)\)\s*\}?\.chars\(\)\.next\(\)\.(?:unwrap|unwrap_unchecked)\(\)',
                      r'self.char_at_unchecked(hs, \1, \2)', b)
+        # a temporary Splice dropped at the end of its statement: its Drop (and the Drop glue of its Drain) made explicit
+        b = self.sub('R25:temp-splice-drop', r'\{ self\.as_mut_vec\(\) \}\.splice\((\w+), (\w+)\.bytes\(\)\);',
+                     r'{ let mut sp__ = self.vec.splice(hs, \1, str_bytes_iter(hs, \2)); sp__.drop(hs, ds, &mut self.vec); }', b)
         b = self.sub('R25:last-char', r'\bself\.chars\(\)\.rev\(\)\.next\(\)', 'self.last_char(hs)', b)
         b = self.sub('R25:slice-chars', r'\bself\[(\w+)\.\.(\w+)\]\.chars\(\)', r'self.slice_chars(hs, \1, \2)', b)
         b = self.sub('R25:is_char_boundary', r'\bself\.is_char_boundary\(', 'self.is_char_boundary(hs, ', b)
